@@ -13,9 +13,9 @@ THEOREMS = [
     "Ts.Snapshot.C01_dataplane_roundtrip",
     "Ts.Snapshot.C01_knob_independence",
     "Ts.Snapshot.C01_structure_roundtrip",
-    "Ts.Snapshot.restoreLeaf_ok",
+    "Ts.Snapshot.restoreLeafWith_ok",
     "Ts.Snapshot.assemble_chunks",
-    "Ts.Snapshot.readAll",
+    "Ts.Snapshot.storedAll",
     "Ts.Flatten.C15_inverse",
     "Ts.C16.C16_plan_roundtrip",
     "Ts.Serial.C17_roundtrip_strided",
